@@ -30,6 +30,7 @@ META = {
     'technique': 'static analysis: abstract interpretation of the string helpers on a structural corpus of constants against a r'
                  'eference specification (ast.literal_eval); regex-AST rule; doc-shape interpretation of the evaluator',
 }
+META['text'] += ' Round 5: the string corpus is extended by texts longer than every size constant the splitter compares against (mined from the source): word + blank run + word, unbroken runs, separator runs of T+1 and T*w+1 characters.'
 
 
 def run(repo, rep):
